@@ -3,4 +3,4 @@
 # properties not claimed, with reason (kept current by hand)
 NOT_APPLICABLE = {}
 # hook commits in /repo (MANIFEST.hooks.source_commits)
-HOOK_COMMITS = []
+HOOK_COMMITS = ['ccf9035', 'f508266']
